@@ -114,6 +114,14 @@ class Env:
                             t.depth += 1
                             env.reports.append({"k": "Entered", "c": nm, "parent": env.name(ctx.parent),
                                                 "cur_ok": env.cur() is ctx})
+                            tdp = {}
+
+                            def td_probe(ctx=ctx, tdp=tdp):
+                                # while a context is being torn down it is still the current one: a context
+                                # created now takes it as parent
+                                tdp["cur"] = env.cur() is ctx
+                                tdp["parent"] = Context().parent is ctx
+                            ctx.add_teardown_callback(td_probe)
                             how = await env.frame(t)
                             t.depth -= 1
                             if how == "ByException":
@@ -128,7 +136,8 @@ class Env:
                 except BaseException as e:  # noqa
                     if not only(e, (Marker, TdError)):
                         raise
-                env.reports.append({"k": "Current", "c": env.name(env.cur())})
+                env.reports.append({"k": "Current", "c": env.name(env.cur()),
+                                    "td_ok": tdp.get("cur") is True and tdp.get("parent") is True, "td": dict(tdp)})
             elif k == "Leave":
                 return cmd["how"]
             elif k == "Observe":
